@@ -109,7 +109,8 @@ def run(ctx, res):
                     m = b.fields["ssrc_seq"]
                     got = iterate(F, D, T.I, s, pv, "entries")
                     rep, nd = got
-                    i_sym = Lin.atom(state_syms(rep)["i"])
+                    ss_ = state_syms(rep)
+                    i_sym = Lin.atom(ss_["i"] if "i" in ss_ else ss_[sorted(ss_)[0]])
                     for tr in rep.transitions:
                         delta, outcome, ints, bools, s3, r = tr[:6]
                         n[0] += 1
@@ -125,7 +126,8 @@ def run(ctx, res):
                     vcoll = b.fields["lost_mbs"]
                     got = iterate(F, D, T.I, s, pv, "lost_macroblocks")
                     rep, nd = got
-                    i_sym = Lin.atom(state_syms(rep)["i"])
+                    ss_ = state_syms(rep)
+                    i_sym = Lin.atom(ss_["i"] if "i" in ss_ else ss_[sorted(ss_)[0]])
                     for tr in rep.transitions:
                         delta, outcome, ints, bools, s3, r = tr[:6]
                         n[0] += 1
